@@ -1,7 +1,7 @@
 (* C09 model runner.  One case per line:
      <id> s<caseseed> k<0|1> n<N> <node>*N : <op>*     (k1: GC keeps the digest references of live descriptors)
    node = <kind 0..5>,<subject|->,<succ.succ...|->  (kind: 0 blob 1 image 2 docker 3 index 4 dockerl 5 artifact)
-   op = P<n> T<n>.<t> U<t> D<n> G R(eopen) A<0|1> S<id>.<alg 0 sha256 1 sha512 2 sha384 3 other>.<valid>
+   op = P<n> T<n>.<t> U<t> D<n> G R(eopen) F(oreign index + reopen) A<0|1> S<id>.<alg 0 sha256 1 sha512 2 sha384 3 other>.<valid>
    Output: <id> then, per op, <op>=<res>/B:..../I:..../P:..../S:....  (see harness/cmd/c09). *)
 let ints_of sep s = if s = "-" || s = "" then [] else List.map int_of_string (String.split_on_char sep s)
 let join sep l = String.concat sep l
@@ -10,8 +10,7 @@ let observe succ n st =
   let ids l = join "," (List.map string_of_int (List.sort_uniq compare (List.map int_of_nat l))) in
   let tags = List.sort compare (List.filter_map (fun (r, m) -> match r with RTag t -> Some (int_of_nat t, int_of_nat m) | _ -> None) st.idx) in
   let digs = List.sort_uniq compare (List.filter_map (fun (r, m) -> match r with RDig _ -> Some (int_of_nat m) | _ -> None) st.idx) in
-  let _ = digs in
-  let i = join "," (List.map (fun (t, m) -> Printf.sprintf "t%d>%d" t m) tags) in
+  let i = join "," (List.map (fun (t, m) -> Printf.sprintf "t%d>%d" t m) tags @ List.map (fun m -> Printf.sprintf "d%d" m) digs) in
   let p = ref [] in
   for k = n - 1 downto 0 do
     let ps = preds succ st.gnodes (nat_of_int k) in
@@ -55,6 +54,7 @@ let () =
             | 'D' -> ODelete (nat_of_int (int_of_string arg))
             | 'G' -> OGC
             | 'R' -> OReopen
+            | 'F' -> OForeign
             | 'A' -> OAuto (arg = "1")
             | 'S' -> (match ints_of '.' arg with [a; k; v] -> OStray { s_id = nat_of_int a; s_alg = nat_of_int k; s_valid = (v = 1) } | _ -> failwith "S")
             | _ -> failwith "op" in
